@@ -77,6 +77,14 @@ def main():
         elif os.environ.get("V"):
             print("    " + info.replace("\n", "\n    "))
     print("%d/%d killed" % (len(res) - bad, len(res)))
+    if not subs:
+        with open(os.path.join(HERE, "RESULTS.md"), "w") as f:
+            f.write("# Sensitivity suite: calibration mutants vs the owning property's %s check\n\n" % tier)
+            f.write("Each mutant is applied to a scratch copy of /repo (it compiles and, for the mutants taken from the\nproperties' why_tests_cant fields, passes the 288 tests); the check must exit 1.\n\n")
+            f.write("| mutant | property | verdict | seconds (incl. build) |\n|---|---|---|---|\n")
+            for (name, prop, verdict, dt, info) in res:
+                f.write("| %s | %s | %s | %.0f |\n" % (name, prop, verdict, dt))
+            f.write("\n%d/%d killed\n" % (len(res) - bad, len(res)))
     return 1 if bad else 0
 
 
